@@ -154,12 +154,12 @@ def run(ctx: Ctx, cfg: dict) -> dict:
             obj = await backend.wrap_stream_socket(sock)
         elif path == "client-connected":
             obj = AsyncTCPNetworkClient(sock, StreamProtocol(StringLineSerializer()), backend)
+            await obj.wait_connected()
         elif path == "udp-client-connected":
             from easynetwork.clients.async_udp import AsyncUDPNetworkClient
             from easynetwork.protocol import DatagramProtocol
 
             obj = AsyncUDPNetworkClient(sock, DatagramProtocol(StringLineSerializer()), backend)
-            await obj.wait_connected()
             await obj.wait_connected()
         elif path in ("srv-client-aclose", "srv-shutdown"):
             from easynetwork.servers.async_tcp import AsyncTCPNetworkServer
